@@ -156,6 +156,14 @@ func (sc *Scope) ident(name string) Val {
 			}
 			sc.fail("$iter used outside a range loop")
 		}
+		if sc.header != nil {
+			// in a loop invariant a variable that the loop re-assigns (also a parameter) denotes its current value
+			for _, in := range sc.header.Instrs {
+				if phi, ok := in.(*ssa.Phi); ok && phi.Comment == name {
+					return Val{T: sc.valueOf(fr, phi), Ty: phi.Type()}
+				}
+			}
+		}
 		for _, p := range fr.fn.Params {
 			if p.Name() == name {
 				return Val{T: fr.val(p), Ty: p.Type()}
